@@ -654,6 +654,12 @@ class Messenger(Connection):
 
             self.recv_message(pkt)
 
+        # the buffer has drained only now, after the last handler returned
+        self._check_sess_term()
+
+    def _check_sess_term(self):
+        ''' Perform post-termination logic, overridden by the session handler. '''
+
     def recv_message(self, pkt):
         ''' Handle a received full message (or contact header).
 
